@@ -19,7 +19,11 @@ pub static DEF: CheckDef = CheckDef {
            thorough 1..5; activations none/relu/sigmoid/softmax; mse or cross-entropy) or 1..2 conv layers (strides \
            1..2, conv->conv), input unbatched / batch 1 / batch 2..4 with the batch size changing between iterations, \
            learning rates {0, .01, .1, .5}, 2..12 iterations (thorough up to 50), a fresh random batch every \
-           iteration, occasional double backward before update. Non-trivial = >= 2 iterations with lr > 0; distinct = \
+           iteration, occasional double backward before update; family disturbed: the same loops with what user code may do between \
+           iterations - a forward call on another batch whose result is abandoned, the Model dropped and rebuilt over \
+           the same layers after freezing / unfreezing parameters (stop_tracking / start_tracking through \
+           Layer::parameters()) or replacing one by a new array: frozen parameters must reach the optimizer without a \
+           gradient and stay bit-identical, all others still step along the exact gradient. Non-trivial = >= 2 iterations with lr > 0; distinct = \
            distinct (net spec, iteration count, batch-size sequence).",
     floors,
     exhaustive: |_| None,
@@ -30,13 +34,14 @@ pub static DEF: CheckDef = CheckDef {
 };
 
 fn families(t: Tier) -> Vec<(&'static str, u64)> {
-    vec![("training", t.n(2_500, 250_000))]
+    vec![("training", t.n(2_500, 250_000)), ("disturbed", t.n(1_500, 150_000))]
 }
 fn floors(_t: Tier) -> Vec<(&'static str, u64)> {
-    vec![("evaluations", 400), ("iterations_checked", 1_500), ("parameter_gradients_compared", 4_000), ("conv_histories", 60), ("batched_histories", 150)]
+    vec![("evaluations", 400), ("iterations_checked", 1_500), ("parameter_gradients_compared", 4_000), ("conv_histories", 60), ("batched_histories", 150), ("disturbed_iterations_checked", 600), ("frozen_parameters_checked", 150), ("iterations_after_abandoned_forward", 150), ("iterations_after_parameter_edit", 100)]
 }
 
-pub fn run_case(ctx: &mut Ctx, _fam: &str, _k: u64, r: &mut Rng) {
+pub fn run_case(ctx: &mut Ctx, fam: &str, _k: u64, r: &mut Rng) {
+    let disturbed = fam == "disturbed";
     let spec = gen_net(r, ctx.tier == Tier::Thorough);
     let n_iter = r.range(2, ctx.tier.n(12, 50) as usize);
     let params0 = gen_params(r, &spec, false);
@@ -58,9 +63,56 @@ pub fn run_case(ctx: &mut Ctx, _fam: &str, _k: u64, r: &mut Rng) {
             None => return,
         };
         let target = gen_target(r, &out.dims);
-        iterations.push(Iteration { input, target, double_backward: r.chance(1, 8) });
+        iterations.push(Iteration::plain(input, target, r.chance(1, 8)));
     }
-    let desc = format!("{} iterations={} batch_sizes={:?}", spec.describe(), n_iter, batch_sizes);
+    // what user code may do between iterations: abandon a forward call, drop the model and build a new one over the
+    // same layers after freezing / unfreezing parameters or replacing one through Layer::parameters()
+    let n_params = params0.len();
+    let mut tracked_now = vec![true; n_params];
+    let mut tracked_at: Vec<Vec<bool>> = vec![];
+    let mut notes: Vec<String> = vec![];
+    for t in 0..n_iter {
+        if disturbed {
+            if r.chance(1, 4) {
+                let mut s = spec.clone();
+                if has_batch {
+                    s.in_dims[0] = r.range(1, 4);
+                }
+                iterations[t].abandoned_forward = Some(if r.chance(1, 3) && s.in_dims == iterations[t].input.dims { iterations[t].input.clone() } else { gen_input(r, &s, false) });
+                notes.push(format!("{}:abandoned-forward", t));
+            }
+            if t >= 1 && r.chance(1, 3) {
+                let mut freeze = vec![None; n_params];
+                for k in 0..n_params {
+                    if tracked_now[k] && r.chance(1, 4) {
+                        freeze[k] = Some(true);
+                        tracked_now[k] = false;
+                    } else if !tracked_now[k] && r.chance(1, 2) {
+                        freeze[k] = Some(false);
+                        tracked_now[k] = true;
+                    }
+                }
+                let mut edits = vec![];
+                if r.chance(1, 2) {
+                    let k = r.below(n_params);
+                    let d = params0[k].dims.clone();
+                    let n: usize = d.iter().product();
+                    let v: Vec<f64> = (0..n).map(|_| 0.25 * r.int(-6, 6)).collect();
+                    edits.push((k, T::from_f64(&d, &v)));
+                    tracked_now[k] = true;
+                }
+                if !tracked_now.iter().any(|x| *x) {
+                    let k = r.below(n_params);
+                    freeze[k] = Some(false);
+                    tracked_now[k] = true;
+                }
+                notes.push(format!("{}:rebuild freeze={:?} edits={:?}", t, freeze.iter().map(|f| match f { Some(true) => 'f', Some(false) => 'u', None => '-' }).collect::<String>(), edits.iter().map(|(k, _)| *k).collect::<Vec<_>>()));
+                iterations[t].rebuild = Some(Rebuild { freeze, edits });
+            }
+        }
+        tracked_at.push(tracked_now.clone());
+    }
+    let desc = format!("{} iterations={} batch_sizes={:?}{}", spec.describe(), n_iter, batch_sizes, if disturbed { format!(" disturbances=[{}]", notes.join("; ")) } else { String::new() });
     ctx.case(&desc, n_iter >= 2 && spec.lr > 0.0);
     ctx.sample(if spec.is_conv() { "conv" } else { "dense" }, || desc.clone());
     if spec.is_conv() {
@@ -110,7 +162,17 @@ pub fn run_case(ctx: &mut Ctx, _fam: &str, _k: u64, r: &mut Rng) {
             ctx.violation("C14|parameters-changed-within-iteration", format!("iteration {}: parameters seen by forward differ from those handed to the optimizer\n{}", t, desc));
             return;
         }
-        // no state from the previous iteration: parameters now are exactly what the last update left
+        // no state from the previous iteration: parameters now are exactly what the last update left (or what the
+        // user put there through Layer::parameters() since)
+        if let (Some(pa), Some(rb)) = (&mut prev_after, &it.rebuild) {
+            for (k, e) in &rb.edits {
+                pa[*k] = Obs { dims: e.dims.clone(), vals: if IS_F32 { e.vals().iter().map(|x| *x as f32 as f64).collect() } else { e.vals() } };
+            }
+            ctx.count("iterations_after_parameter_edit", rb.edits.len() as u64);
+        }
+        if it.abandoned_forward.is_some() {
+            ctx.count("iterations_after_abandoned_forward", 1);
+        }
         if let Some(pa) = &prev_after {
             if pa.iter().zip(&fwd_params).any(|(a, b)| a.dims != b.dims || a.vals.iter().map(|x| x.to_bits()).ne(b.vals.iter().map(|x| x.to_bits()))) {
                 ctx.violation("C14|parameters-drift-between-iterations", format!("iteration {}: parameters differ from what the previous update produced\n{}", t, desc));
@@ -150,6 +212,9 @@ pub fn run_case(ctx: &mut Ctx, _fam: &str, _k: u64, r: &mut Rng) {
             return;
         }
         ctx.count("iterations_checked", 1);
+        if disturbed {
+            ctx.count("disturbed_iterations_checked", 1);
+        }
         let maxmag = out_ref.max_abs().max(it.input.max_abs()).max(1.0);
         if let Err((k, d)) = compare(&run.outputs[t].dims, &run.outputs[t].vals, &out_ref, Rule::Tol(maxmag * 10.0)) {
             ctx.violation(&format!("C14|output-{}", k), format!("iteration {}: model output: {}\n{}", t, d, desc));
@@ -167,6 +232,20 @@ pub fn run_case(ctx: &mut Ctx, _fam: &str, _k: u64, r: &mut Rng) {
             eprintln!("iteration {} double={} input {:?} {:?}\n target {:?}\n params {:?}\n out_ref {:?}\n out_obs {:?}\n loss_ref {} loss_obs {}\n grads_ref {:?}\n grads_obs {:?}", t, it.double_backward, it.input.dims, it.input.v, it.target.v, pb.iter().map(|p| p.v.clone()).collect::<Vec<_>>(), out_ref.v, run.outputs[t].vals, loss, run.losses[t], grads, before.iter().map(|b| b.grad.as_ref().map(|g| g.vals.clone())).collect::<Vec<_>>());
         }
         for (i, b) in before.iter().enumerate() {
+            if !tracked_at[t][i] {
+                // frozen by the user before this iteration: receives nothing and is left as it is
+                ctx.count("frozen_parameters_checked", 1);
+                let a = &after[i];
+                if b.grad.is_some() || a.has_grad {
+                    ctx.violation("C14|frozen-parameter-has-gradient", format!("iteration {}: parameter {} was frozen (stop_tracking) before the iteration but reached the optimizer with a gradient\n{}", t, i, desc));
+                    return;
+                }
+                if a.value.dims != b.value.dims || a.value.vals.iter().map(|x| x.to_bits()).ne(b.value.vals.iter().map(|x| x.to_bits())) || a.tracked {
+                    ctx.violation("C14|frozen-parameter-changed", format!("iteration {}: parameter {} was frozen and holds no gradient but the update changed it (or its flag)\n{}", t, i, desc));
+                    return;
+                }
+                continue;
+            }
             let g = match &b.grad {
                 Some(g) => g,
                 None => {
